@@ -312,9 +312,18 @@ func compareDelivered(what string, seq []msgSpec, got, want [][]byte) []explore.
 	if len(got) != len(want) {
 		return []explore.Violation{{Signature: what + "-messages-count-wrong", Detail: fmt.Sprintf("sequence %s (from,size): delivered %d payloads, expected %d (own messages skipped)", desc, len(got), len(want))}}
 	}
-	for i := range got {
-		if !bytes.Equal(got[i], want[i]) {
-			return []explore.Violation{{Signature: what + "-payload-altered-or-reordered", Detail: fmt.Sprintf("sequence %s: payload %d differs (len %d vs %d)", desc, i, len(got[i]), len(want[i]))}}
+	// exactly once and byte for byte; the statement does not promise an order, so compare as multisets
+	used := make([]bool, len(want))
+	for _, g := range got {
+		found := false
+		for i, w := range want {
+			if !used[i] && bytes.Equal(g, w) {
+				used[i], found = true, true
+				break
+			}
+		}
+		if !found {
+			return []explore.Violation{{Signature: what + "-payload-altered-or-duplicated", Detail: fmt.Sprintf("sequence %s: a delivered payload of %d bytes matches no undelivered sent payload", desc, len(g))}}
 		}
 	}
 	return nil
@@ -528,6 +537,8 @@ func runDirectChannelInterleavings() (string, []explore.Violation) {
 		for _, f := range ord {
 			want = append(want, f+"@"+f[:1])
 		}
+		sort.Strings(got)
+		sort.Strings(want)
 		if strings.Join(got, ",") != strings.Join(want, ",") {
 			vs = append(vs, explore.Violation{Signature: "directchannel-interleaved-senders-mixed-up", Detail: fmt.Sprintf("sent %v received %v", want, got)})
 		}
@@ -538,7 +549,7 @@ func runDirectChannelInterleavings() (string, []explore.Violation) {
 func init() {
 	explore.Register(&explore.CheckDef{
 		ID: "C20", Level: "exploration",
-		Rule: "pubsubcoreapi over a scripted PubSub API whose poll loop is stepped one membership snapshot at a time: every sequence of <= 3 (quick) / <= 4 (thorough) snapshots over 3 remote peers, each snapshot a duplicate-free set in every list order (16 ordered lists): joins and leaves reported must be exactly the set differences of consecutive snapshots, once each, and Peers() the last snapshot; every message sequence of length <= 3 over sender {self, p1, p2} x payload {empty, 1 byte, 64 KiB} must be delivered as its non-self subsequence, byte-identical and in order (topic adapter and one-on-one channel monitor, the latter attributed to the channel's remote peer). oneonone: channel names symmetric, distinct and used for sending, for all 20 ordered pairs of 5 peer ids. directchannel over an in-memory host: 10 payload sizes from 0 to the frame limit +1 (exact bytes, exact sender, once; oversize refused and the next frame still delivered) and all 6 interleavings of two senders x two frames. pubsubraw over three real in-memory libp2p hosts with gossipsub: every message sequence of length <= 2 over 3 senders x 2 sizes, receipt-based waiting (bounded input enumeration without schedule control; a delivery the library does not make in time ends the case as inconclusive, not as a violation). Non-trivial = sequences in which membership changes / a self-sent message occurs.",
+		Rule: "pubsubcoreapi over a scripted PubSub API whose poll loop is stepped one membership snapshot at a time: every sequence of <= 3 (quick) / <= 4 (thorough) snapshots over 3 remote peers, each snapshot a duplicate-free set in every list order (16 ordered lists): joins and leaves reported must be exactly the set differences of consecutive snapshots, once each, and Peers() the last snapshot; every message sequence of length <= 3 over sender {self, p1, p2} x payload {empty, 1 byte, 64 KiB} must be delivered as exactly the multiset of its non-self payloads, byte-identical (order is not part of the statement and is not judged) (topic adapter and one-on-one channel monitor, the latter attributed to the channel's remote peer). oneonone: channel names symmetric, distinct and used for sending, for all 20 ordered pairs of 5 peer ids. directchannel over an in-memory host: 10 payload sizes from 0 to the frame limit +1 (exact bytes, exact sender, once; oversize refused and the next frame still delivered) and all 6 interleavings of two senders x two frames. pubsubraw over three real in-memory libp2p hosts with gossipsub: every message sequence of length <= 2 over 3 senders x 2 sizes, receipt-based waiting (bounded input enumeration without schedule control; a delivery the library does not make in time ends the case as inconclusive, not as a violation). Non-trivial = sequences in which membership changes / a self-sent message occurs.",
 		Units: func(tier string) []explore.Unit {
 			u := explore.ChunkUnits("membership-"+tier, 16)
 			u = append(u, explore.ChunkUnits("topicmsgs", 4)...)
